@@ -141,6 +141,45 @@ theorem failed_tx_changes_nothing (w : World) (sender : String) (funds : List Co
   unfold runExec at *
   split <;> simp_all
 
+/-- who may execute a message, as a predicate on the contract state: the authorization matrix -/
+def authorized (s : CState) (sender : String) : ExecMsg → Prop
+  | .circuitBreaker => s.admin = some sender ∨ sender ∈ s.config.monitors
+  | .acceptOwnership => s.st.pendingOwner = some sender
+  | .receiveRewards =>
+    deriveIntermediateSender s.config.proto.channel s.config.native.rewardCollector s.config.proto.accountPrefix = some sender
+  | .receiveUnstakedTokens _ =>
+    deriveIntermediateSender s.config.proto.channel s.config.native.staker s.config.proto.accountPrefix = some sender
+  | m => adminOnly m = true → s.admin = some sender
+
+/-- the matrix in one statement: a successful call was authorized -/
+theorem success_was_authorized (s : CState) (env : Env) (info : Info) (m : ExecMsg) (r : Out)
+    (h : execute s env info m = .ok r) : authorized s info.sender m := by
+  cases m
+  case circuitBreaker => exact breaker_auth s env info r h
+  case acceptOwnership => exact accept_auth s env info r h
+  case receiveRewards => exact rewards_auth s env info r h
+  case receiveUnstakedTokens b => exact unstaked_auth s env info b r h
+  all_goals exact fun hm => admin_only s env info _ r hm h
+
+/-- **any other caller gets an error and nothing changes — on the chain model.**  A transaction
+carrying a message its sender is not authorized for does not commit, and the whole world (contract
+store, all balances including the funds attached, LST supply, packets) is exactly as before, whatever
+the funds, faults and transaction index. -/
+theorem unauthorized_tx_without_effect (w : World) (sender : String) (funds : List Coin) (m : ExecMsg)
+    (f : Faults) (txi : Option Nat) (hna : ¬ authorized w.c sender m) :
+    (step w (.exec sender funds m f txi)).w = w ∧ (step w (.exec sender funds m f txi)).committed = false := by
+  simp only [step, runExec, runExecCore]
+  split
+  · rename_i w' calls heq
+    exfalso
+    split at heq
+    · cases heq
+    · rename_i bal1 _
+      cases hx : execute ({ w with bal := bal1 } : World).c (({ w with bal := bal1 } : World).env txi) { sender, funds } m with
+      | error e => simp only [hx] at heq; cases heq
+      | ok r => exact hna (success_was_authorized _ _ _ _ r hx)
+  · exact ⟨rfl, rfl⟩
+
 /-- non-vacuity: the admin can execute an admin-only message -/
 example : adminOnly (.feeWithdraw 0) = true := rfl
 
